@@ -244,3 +244,51 @@ func VH_C06_SubsetTimeWindow() {
 		vh.Assert(!(inSpec && date < 1<<62 && expires < 1<<62), "a window that satisfies the conditions is accepted")
 	}
 }
+
+// VH_C06_SignedSubsetRoundTrip: decodeSignedSubset(SignedSubset.Encode(s)) == s for a signed subset with SYMBOLIC
+// date/expires (1 <= x < 2^62), symbolic auth-sha256 (4 bytes) and 0..2 URLs with symbolic header hashes (Go map
+// order nondeterministic); and (thorough tier) Encode is injective on these fields (two subsets with equal bytes are equal).
+func VH_C06_SignedSubsetRoundTrip() {
+	vh.MapOrderAny()
+	mk := func(tag string) *SignedSubset {
+		d, x := vh.Int64(tag+".date"), vh.Int64(tag+".exp")
+		vh.Assume(d >= 1 && d < 1<<62 && x >= 1 && x < 1<<62)
+		ss := &SignedSubset{ValidityUrl: c06URL("https://example.org/v"), AuthSha256: vh.Bytes(tag+".auth", 4), Date: time.Unix(d, 0), Expires: time.Unix(x, 0), SubsetHashes: map[string]*ResponseHashes{}}
+		n := vh.Choose(3)
+		urls := []string{"https://example.org/a", "https://example.org/bb"}
+		for i := 0; i < n; i++ {
+			ss.SubsetHashes[urls[i]] = &ResponseHashes{Hashes: []*ResourceIntegrity{{vh.Bytes(tag+".h"+urls[i][len(urls[i])-1:], 3), "digest/mi-sha256-03"}}}
+		}
+		return ss
+	}
+	eq := func(a, b *SignedSubset) bool {
+		if a.ValidityUrl.String() != b.ValidityUrl.String() || !bytes.Equal(a.AuthSha256, b.AuthSha256) || a.Date.Unix() != b.Date.Unix() || a.Expires.Unix() != b.Expires.Unix() || len(a.SubsetHashes) != len(b.SubsetHashes) {
+			return false
+		}
+		for u, rh := range a.SubsetHashes {
+			o, ok := b.SubsetHashes[u]
+			if !ok || len(o.Hashes) != len(rh.Hashes) || len(o.VariantsValue) != len(rh.VariantsValue) {
+				return false
+			}
+			for i := range rh.Hashes {
+				if !bytes.Equal(rh.Hashes[i].HeaderSha256, o.Hashes[i].HeaderSha256) || rh.Hashes[i].PayloadIntegrityHeader != o.Hashes[i].PayloadIntegrityHeader {
+					return false
+				}
+			}
+		}
+		return true
+	}
+	s1 := mk("s1")
+	b1, err := s1.Encode()
+	vh.Assert(err == nil, "Encode succeeds")
+	back, derr := decodeSignedSubset(b1)
+	vh.Assert(derr == nil && back != nil && eq(s1, back), "decodeSignedSubset(Encode(s)) == s")
+	if vh.Tier() == 1 && vh.Choose(2) == 1 {
+		s2 := mk("s2")
+		b2, err2 := s2.Encode()
+		vh.Assume(err2 == nil)
+		if bytes.Equal(b1, b2) {
+			vh.Assert(eq(s1, s2), "Encode is injective: equal bytes imply equal signed subsets")
+		}
+	}
+}
